@@ -26,6 +26,8 @@ model's `get` / `seekObs`; writes touch the node itself, flushes the node and it
   pend <id>                                 -> ok alias=0        step 3 (success); alias: are the store's maps the map
   pfail <id>                                -> ok alias=1        objects the tempstore held (Model/Store/Locks.lean)
                                                      step 3 (PutChangeSet failed; nothing written)
+  overlap <id> <sync> <window>              -> blocked           a second PersistSync / Persist started while the
+                                                     stepwise one is in flight has to wait for plock
   ppriv <id> <p>*                           -> <n>
 -/
 import NeoModel.Base.Proto
@@ -34,6 +36,7 @@ import NeoModel.Model.Store.Dao
 import NeoModel.Model.Store.Window
 import NeoModel.Model.Store.GC
 import NeoModel.Model.Store.Locks
+import NeoModel.Model.Store.Flush
 open NeoModel NeoModel.Store
 
 inductive HNode where
@@ -345,6 +348,11 @@ def stepSt (st : St) (ws : List String) : St × String :=
       let alt := showKVs (pd.s0.seekSplit (st.h.viewOf pd.id) pd.rng pd.cut pd.lim)
       let applies := pd.id == pd.hold && st.h.tempsThenBase st.temps (st.h.length + 1) pd.psId
       ({ st with pend := none }, if applies && alt != res then res ++ " SPLIT-MODEL-DIFFERS " ++ alt else res)
+  | ["overlap", _, sync, win] =>
+    -- a second flush started while a Persist of this store is in flight: can it get in? (Model/Store/Flush.lean)
+    match win.toNat? with
+    | some w => (st, if Flush.overlapBlocked (parseBool sync) w then "blocked" else "done")
+    | none => (st, "bad-op")
   | ["pend", _] =>
     let (h', out) := step st.h ws
     ({ st with h := h' }, if out == "ok" then out ++ (if Locks.aliasedAfter .finishOk then " alias=1" else " alias=0") else out)
